@@ -16,7 +16,7 @@ RULE = ('one case = 1..4 simulated threads, each pumping a seeded sequence of re
         '(strict) for every window [t_i,t_j] of pass-through events bytes <= L*T + 0.5*L + (streams+1)*d_max whenever there is one stream or the '
         'limiter credited no I/O time at all; (relaxed) in EVERY run bytes <= L*(T + sum of credited I/O time) + 1.5*L + (streams+1)*d_max; '
         'bytes out == bytes in per stream, in order; seek/tell/truncate through the chain act on the underlying stream. A second profile runs '
-        'the real snapshot/restore with rate_limit over SimStore (transparency; strict bound at concurrency 1). '
+        'the real snapshot/restore with rate_limit over SimStore (transparency; strict bound at concurrency 1), in half of the cases through one long-lived Repository object with the restore under another limit. '
         'distinct_nontrivial = distinct event-log digests among cases with >= 50 requests')
 COMPONENTS = {
     'real': ['replicat.utils.RateLimitedIO, _RateLimitedFileWrapper, TQDMIOReader/Writer', 'replicat.repository snapshot/restore with rate_limit (profile 2)'],
